@@ -10,7 +10,8 @@ LEVEL = "fault_enumeration"
 SHARDS = {"quick": 4, "thorough": 16}
 TIMEOUT = {"quick": 600, "thorough": 2400}
 MIN_EVALUATIONS = {"quick": 15000, "thorough": 15000}  # fewer oracle evaluations than this means the workload collapsed: inconclusive
-RULE = ("frames with body length in {0,1,2,3,231,232,233,255,256,257,487,488,489,4000,65511}+random; receive: every subset of the "
+RULE = ("frames with body length in {0,1,2,3,231,232,233,255,256,257,487,488,489,4000,65511}+random, half of them with arbitrary command code, "
+        "non-zero encapsulation status, sender context and options (framing depends on the length field alone); receive: every subset of the "
         "boundary cut-set {1,2,3,4,5,23,24,25,26,255,256,257,n-2,n-1} as recv split points, every uniform chunk size 1..256, seeded "
         "random compositions; for each frame the peer closes / times out / resets after every prefix-length class; send: every subset "
         "of the analogous cut-set as partial-send pattern, 0-byte send, error after j bytes; verdict per case from returned bytes, "
